@@ -536,4 +536,4 @@ def run(cx):
             check_field_writers(ob, prog, BS, fld, [f"{BS}::new", f"{BS}::update"], crates=["anemo"], kinds=("mutref", "write"))
 
     with cx.ob("C13.7", "R-WRITERS", "one layer out: interval, backoff step, backoff cap and connecting cap are never rewritten after the Config was built") as ob:
-        check_config_immutable(ob, prog, ["connectivity_check_interval_ms", "connection_backoff_ms", "max_connection_backoff_ms", "max_concurrent_outstanding_connecting_connections"])
+        check_config_immutable(ob, prog, ["connectivity_check_interval_ms", "connection_backoff_ms", "max_connection_backoff_ms", "max_concurrent_outstanding_connecting_connections"], repo=cx.repo)
